@@ -451,7 +451,7 @@ def forwarded_parameter_obligations(model, rep, fn, pname, callees, clause, rule
             own_kw = fn.node.args.kwarg.arg if fn.node.args.kwarg is not None else None
             if any(k.arg is None and not (isinstance(k.value, ast.Name) and k.value.id == own_kw) for k in c.keywords):
                 continue  # forwarding through some other dictionary: not decided here (the function's own **kwargs cannot contain a named parameter)
-            det = f"`{norm_src(c)[:90]}` does not pass `{pname}`: the callee falls back to the loader's default although {fn.name} was asked for a specific one"
+            det = f"`{norm_src(c)[:90]}` does not pass `{pname}`: the callee falls back to its own default although {fn.name} was asked for a specific one"
         else:
             try:
                 ex = M.expr(v)
